@@ -31,6 +31,7 @@ from .utils import get_hostname, foreign_raise, is_windows, get_logger, classpro
 logger = get_logger(__name__)
 
 default_port = 60006
+control_connect_timeout = 5 # seconds the server waits for a new client to connect to its control socket
 
 
 class ConnectionClosedError(Exception):
@@ -511,7 +512,14 @@ class RemoteWorker(Worker, metaclass=RemoteWorkerMeta):
 
             incoming = self._ctrl_sock
             logger.debug('Waiting for a connect to the control socket from the parent')
-            self._ctrl_sock, ctrl_peer = incoming.accept()
+            # the server is blocked while we are waiting here, do not let a client which has disappeared block it forever
+            incoming.settimeout(control_connect_timeout)
+            try:
+                self._ctrl_sock, ctrl_peer = incoming.accept()
+            except OSError as e:
+                incoming.close()
+                raise ConnectionClosedError() from e
+            self._ctrl_sock.settimeout(None)
             set_keepalive(self._ctrl_sock, True)
             logger.details('Control sockets connected: {} <==> {}', self._ctrl_sock.getsockname(), ctrl_peer)
             logger.debug('Closing listening socket')
